@@ -43,15 +43,13 @@ struct weekday {
 
     constexpr auto operator+=(days const& d) noexcept -> weekday&
     {
-        _wd += d.count();
-        _wd %= 7;
+        _wd = modulo7(static_cast<long long>(_wd) + d.count());
         return *this;
     }
 
     constexpr auto operator-=(days const& d) noexcept -> weekday&
     {
-        _wd -= d.count();
-        _wd %= 7;
+        _wd = modulo7(static_cast<long long>(_wd) - d.count());
         return *this;
     }
 
@@ -73,6 +71,11 @@ struct weekday {
     }
 
 private:
+    [[nodiscard]] static constexpr auto modulo7(long long n) noexcept -> etl::uint8_t
+    {
+        return static_cast<etl::uint8_t>(n % 7 < 0 ? n % 7 + 7 : n % 7);
+    }
+
     [[nodiscard]] static constexpr auto weekday_from_days(int tp) noexcept -> etl::uint8_t
     {
         return static_cast<etl::uint8_t>(tp >= -4 ? (tp + 4) % 7 : (tp + 5) % 7 + 6);
@@ -83,14 +86,18 @@ private:
 
 [[nodiscard]] constexpr auto operator+(weekday const& lhs, days const& rhs) noexcept -> weekday
 {
-    return weekday{static_cast<unsigned>((static_cast<int32_t>(lhs.c_encoding()) + rhs.count()) % 7)};
+    auto tmp = lhs;
+    tmp += rhs;
+    return tmp;
 }
 
 [[nodiscard]] constexpr auto operator+(days const& lhs, weekday const& rhs) noexcept -> weekday { return rhs + lhs; }
 
 [[nodiscard]] constexpr auto operator-(weekday const& lhs, days const& rhs) noexcept -> weekday
 {
-    return weekday{static_cast<unsigned>((static_cast<int32_t>(lhs.c_encoding()) - rhs.count()) % 7)};
+    auto tmp = lhs;
+    tmp -= rhs;
+    return tmp;
 }
 
 [[nodiscard]] constexpr auto operator-(weekday const& lhs, weekday const& rhs) noexcept -> days
